@@ -125,6 +125,14 @@ theorem C12_pop_push_origin (c : Cfg α) (g : Graph α) (text : List Nat) :
     obtain ⟨_, _, l, r', hr, hd, hx⟩ := hok
     exact ⟨pre, l, r', by rw [heq, hr], hd, hx⟩
 
+/-- the decay factor is defined for every configuration — an absent, `None` or partial `t1.decay` falls back
+to the defaults of the code (exp_floor, rate 0.6, floor 0.05, alpha 0.8), it no longer raises -/
+theorem C12_decay_total (c : Cfg α) (d : Nat) : (decayOf c d).isSome = true := by
+  unfold decayOf
+  split <;> rfl
+
+example : decayOf { exCfg with decay := none } 2 = some (pymax (powNat (ofDec 6 1 : Int) 2) (ofDec 5 2)) := rfl
+
 /-- **The rule monitor is a consequence of the rule**: the Boolean `traceRuleOk` that the driver evaluates
 on the heap trace (pops/pushes with operands) of the REAL run holds on the heap trace of every model run,
 for every carrier whose representation equality is reflexive. -/
